@@ -1,6 +1,7 @@
 package main
 
 import (
+	"regexp"
 	"sort"
 	"fmt"
 	"go/types"
@@ -558,4 +559,93 @@ func (fc *FnCtx) checkFrame() {
 	}
 	fc.obls = append(fc.obls, ob)
 	fc.curReach = save
+}
+
+// Path-sensitive call results.  callres("F") normally denotes the result of the latest call to F that
+// dominates the point of use.  When no call dominates (the call sits in a branch), the result of the latest
+// call executed on the current path is kept in a pseudo heap cell "$cr.F.k" (merged at joins like any heap),
+// together with the flag "$called.F"; called("F") tells whether a call to F happened on this path.
+var callresRe = regexp.MustCompile(`call(?:res|ed)\("([^"]+)"`)
+
+func (fc *FnCtx) trackedCalls() map[string]bool {
+	if fc.tracked != nil {
+		return fc.tracked
+	}
+	fc.tracked = map[string]bool{}
+	if fc.con == nil {
+		return fc.tracked
+	}
+	scan := func(cls []Clause) {
+		for _, c := range cls {
+			for _, m := range callresRe.FindAllStringSubmatch(c.Src, -1) {
+				fc.tracked[m[1]] = true
+			}
+		}
+	}
+	scan(fc.con.Ensures)
+	scan(fc.con.Exits)
+	for _, a := range fc.con.Asserts {
+		scan([]Clause{a.C})
+	}
+	return fc.tracked
+}
+
+func callName(c *ssa.Call) []string {
+	if c.Call.IsInvoke() {
+		return []string{c.Call.Method.Name()}
+	}
+	if f, ok := c.Call.Value.(*ssa.Function); ok {
+		return []string{fnName(f), f.Name()}
+	}
+	return nil
+}
+
+func (fc *FnCtx) initCallFlags() {
+	for n := range fc.trackedCalls() {
+		fc.heapSort["$called."+n] = SBool
+		fc.touched["$called."+n] = true
+		fc.entry.m["$called."+n] = "false"
+	}
+}
+
+func (fc *FnCtx) recordCallRes(c *ssa.Call) {
+	tr := fc.trackedCalls()
+	if len(tr) == 0 {
+		return
+	}
+	for _, n := range callName(c) {
+		if !tr[n] {
+			continue
+		}
+		v, ok := fc.vals[c]
+		if !ok {
+			continue
+		}
+		sorts := sortsOf(c.Type())
+		if len(sorts) != len(v.C) {
+			continue
+		}
+		for k, t := range v.C {
+			hn := fmt.Sprintf("$cr.%s.%d", n, k)
+			fc.heapSort[hn] = sorts[k]
+			fc.touched[hn] = true
+			fc.cur.m[hn] = t
+		}
+		fc.crType[n] = c.Type()
+		fc.cur.m["$called."+n] = "true"
+	}
+}
+
+// pathCallRes: the result of the latest call to name on the current path (unconstrained if none happened).
+func (fc *FnCtx) pathCallRes(name string, h *HeapState) (Val, bool) {
+	t, ok := fc.crType[name]
+	if !ok {
+		return Val{}, false
+	}
+	sorts := sortsOf(t)
+	var comps []string
+	for k := range sorts {
+		comps = append(comps, fc.getHeapTerm(h, fmt.Sprintf("$cr.%s.%d", name, k), sorts[k]))
+	}
+	return mkVal(t, comps), true
 }
